@@ -29,6 +29,20 @@
 // an intrinsic and the compiler thinks we don't need to reference std::mem anymore, but we
 // do because that intrinsic is unstable.
 
+#[cfg(feature = "verif")]
+pub mod verif;
+
+#[cfg(feature = "verif")]
+macro_rules! vpoint {
+    ($name:expr) => {
+        $crate::verif::point($name)
+    };
+}
+#[cfg(not(feature = "verif"))]
+macro_rules! vpoint {
+    ($name:expr) => {};
+}
+
 mod error;
 pub use error::{Error, InnerError};
 
@@ -84,6 +98,7 @@ impl Store {
 
         // Create the directory if it doesn't exist, ignoring errors
         let _ = fs::create_dir(&dir);
+        vpoint!("new.dir");
 
         let mut events_path = dir.clone();
         events_path.push("event.map");
@@ -93,9 +108,12 @@ impl Store {
 
         // Create the lmdb subdir if it doesn't exist, ignoring errors
         let _ = fs::create_dir(&indexes_path);
+        vpoint!("new.lmdbdir");
 
         let events = EventStore::new(&events_path)?;
+        vpoint!("new.events");
         let indexes = Lmdb::new(&indexes_path, &extra_table_names)?;
+        vpoint!("new.done");
 
         Ok(Store {
             events,
@@ -284,13 +302,17 @@ impl Store {
     /// it will not be indexed.
     pub fn store_event(&self, event: &Event) -> Result<u64, Error> {
         // TBD: should we validate the event?
+        vpoint!("store.begin");
 
         let mut txn = self.indexes.write_txn()?;
 
         // Return Duplicate if it already exists
+        vpoint!("store.txn");
         if self.indexes.get_offset_by_id(&txn, event.id())?.is_some() {
             return Err(InnerError::Duplicate.into());
         }
+
+        vpoint!("store.dupchecked");
 
         // Handle deleted events
         {
@@ -331,6 +353,8 @@ impl Store {
                 }
             }
         }
+
+        vpoint!("store.markerschecked");
 
         // Pre-remove replaceable events being replaced
         {
@@ -377,20 +401,27 @@ impl Store {
             }
         }
 
+        vpoint!("store.preremoved");
+
         // Store the event
         let offset = self.events.store_event(event)? as u64;
+        vpoint!("store.appended");
 
         // Index the event
         if !event.kind().is_ephemeral() {
             self.indexes.index(&mut txn, event, offset)?;
         }
 
+        vpoint!("store.indexed");
+
         // Handle deletion events
         if event.kind() == 5.into() {
             self.handle_deletion_event(&mut txn, event)?;
         }
 
+        vpoint!("store.precommit");
         txn.commit()?;
+        vpoint!("store.committed");
 
         Ok(offset)
     }
@@ -399,6 +430,7 @@ impl Store {
         for mut tag in event.tags()?.iter() {
             if let Some(tagname) = tag.next() {
                 if tagname == b"e" {
+                    vpoint!("store.deltag");
                     if let Some(id_hex) = tag.next() {
                         if let Ok(id) = Id::read_hex(id_hex) {
                             // Actually remove
@@ -417,6 +449,7 @@ impl Store {
                         }
                     }
                 } else if tagname == b"a" {
+                    vpoint!("store.deltag");
                     if let Some(naddr_bytes) = tag.next() {
                         if let Ok(addr) = Addr::try_from_bytes(naddr_bytes) {
                             if addr.author != event.pubkey() {
@@ -459,7 +492,9 @@ impl Store {
     /// Get an event by Id
     pub fn get_event_by_id(&self, id: Id) -> Result<Option<&Event>, Error> {
         let txn = self.indexes.read_txn()?;
+        vpoint!("read.txn");
         if let Some(offset) = self.indexes.get_offset_by_id(&txn, id)? {
+            vpoint!("read.offset");
             unsafe { Some(self.events.get_event_by_offset(offset as usize)).transpose() }
         } else {
             Ok(None)
@@ -511,6 +546,7 @@ impl Store {
         let txn = self.indexes.read_txn()?;
 
         // We insert into a BTreeSet to keep them time-ordered
+        vpoint!("find.txn");
         let mut output: BTreeSet<&Event> = BTreeSet::new();
 
         if filter.num_ids() > 0 {
@@ -793,6 +829,8 @@ impl Store {
             }
         }
 
+        vpoint!("find.collected");
+
         // Convert to a Vec, reverse time order, and apply limit
         let events = output
             .iter()
@@ -914,9 +952,13 @@ impl Store {
 
     /// This removes an event without marking it as having been deleted by another event
     pub fn remove_event(&self, id: Id) -> Result<(), Error> {
+        vpoint!("remove.begin");
         let mut txn = self.indexes.write_txn()?;
+        vpoint!("remove.txn");
         self.remove_by_id(&mut txn, id)?;
+        vpoint!("remove.precommit");
         txn.commit()?;
+        vpoint!("remove.committed");
         Ok(())
     }
 
@@ -1007,13 +1049,16 @@ impl Store {
     ///
     /// Caller is responsible for verifying the event and its relay tag
     pub fn vanish(&self, event: &Event) -> Result<(), Error> {
+        vpoint!("vanish.begin");
         // delete all events with this pubkey
         let tags = OwnedTags::empty();
         let filter = OwnedFilter::new(&[], &[event.pubkey()], &[], &tags, None, None, None)?;
         let (authored_events, _redacted) =
             self.find_events(&filter, true, 0, 0, |_| ScreenResult::Match)?;
+        vpoint!("vanish.queried");
         for event in authored_events.iter() {
             self.remove_event(event.id())?;
+            vpoint!("vanish.removed");
         }
 
         // delete giftwraps that p-tag this pubkey
@@ -1021,8 +1066,10 @@ impl Store {
         let filter = OwnedFilter::new(&[], &[], &[Kind::from_u16(1059)], &tags, None, None, None)?;
         let (giftwrap_events, _redacted) =
             self.find_events(&filter, true, 0, 0, |_| ScreenResult::Match)?;
+        vpoint!("vanish.queried");
         for event in giftwrap_events.iter() {
             self.remove_event(event.id())?;
+            vpoint!("vanish.removed");
         }
 
         Ok(())
